@@ -108,11 +108,13 @@ package scan
 
 //@ func newRangeIterator
 //@   props C04 C01
+//@   modifies nothing
 //@   ensures reject: (n < 1 || n >= 4294967357) ==> ret1 != nil
 //@   ensures accept: (1 <= n && n <= 4294967356) ==> ret1 == nil && ret0 != nil && RI(ret0) && big(ret0.rangeLimit) == n
 //@        && 1 <= big(ret0.I) && big(ret0.I) <= n && ret0.last == ret0.e0
 //@        && big(ret0.I) == seq(big(ret0.G), big(ret0.P), ret0.last) && (!ret0.stop ==> ret0.e == ret0.e0)
 //@   ensures freshness: ret1 == nil ==> fresh(ret0)
+//@   ensures owned: ret1 == nil ==> fresh(ret0.P) && fresh(ret0.G) && fresh(ret0.I) && fresh(ret0.startI) && fresh(ret0.rangeLimit)
 //@   at call (*math/big.Int).Exp#0 after: use cop_pow(cyclic.N, cyclic.P - 1, big(randM))
 //@   at call (*math/big.Int).Exp#1 after: use gen_pow(cyclic.G, cyclic.P, big(N))
 //@   at call (*math/big.Int).Exp#2 after: use orbit_exp(big(G), cyclic.P, big(randM))
@@ -227,10 +229,9 @@ package scan
 //@ func (*GenericEngine).Start$1
 //@   props C08 C12
 //@   observe (*sync.WaitGroup).Add, (*sync.WaitGroup).Wait
-//@   requires e.workerCount >= 0
-//@   loop 0 invariant bounds: 1 <= i && i <= e.workerCount + 1
+//@   loop 0 invariant bounds: 1 <= i && (e.workerCount >= 0 ==> i <= e.workerCount + 1) && (e.workerCount < 0 ==> i == 1)
 //@   loop 0 row spawn: [call Add(_, 1) ; go (*GenericEngine).worker(e, ctx, _, requests, errc)] -> continue
-//@   loop 0 row join:  [call Wait(_) ; close errc ; close done] when i == e.workerCount + 1 -> exit
+//@   loop 0 row join:  [call Wait(_) ; close errc ; close done] when (e.workerCount >= 0 ==> i == e.workerCount + 1) && (e.workerCount < 0 ==> i == 1) -> exit
 
 // result hand-off: Put is a guarded send on the internal channel; the copier forwards each element once
 //@ func (*resultChan).Put
@@ -329,3 +330,67 @@ package scan
 //@   loop 0 row excluded: [recv requests as (rq, true) ; call Contains(rg.excludeIPs, pre(rq.DstIP)) as (c, e)] when pre(rq.Err) == nil && e == nil && c -> continue
 //@   loop 0 row pass:     [recv requests as (rq, true) ; call Contains(rg.excludeIPs, pre(rq.DstIP)) as (c, e) ; send? out rq]
 //@                           when pre(rq.Err) == nil && e == nil && !c && rq.Err == nil && rq.DstIP == pre(rq.DstIP) && rq.DstPort == pre(rq.DstPort) -> continue
+
+// ---------------------------------------------------------------------------------------------
+// C01 / C02: subnet address generator. With NET = the subnet's base address and n = 2^(32-ones) its size, the value
+// sent in an iteration is the 4-byte address NET + (I - 1), where I is the iterator's current value; by C04 the
+// values I of one pass are a permutation of 1..n, so every address of [NET, NET+n-1] is sent exactly once and
+// nothing outside it ever is (confinement). FillBytes cannot panic (0 <= NET + I - 1 < 2^32).
+//@ pred IPv4Net(n *net.IPNet) = n != nil && len(n.IP) == 4 && len(n.Mask) == 4
+//@ func (*ipGenerator).IPs
+//@   props C01 C02
+//@   requires r != nil && (r.DstSubnet != nil ==> IPv4Net(r.DstSubnet))
+//@   ensures nosubnet: old(r.DstSubnet) == nil ==> ret0 == nil && ret1 == ErrSubnet
+//@ func (*ipGenerator).IPs$1
+//@   props C01 C02 C12
+//@   observe FillBytes, Next
+//@   requires it != nil && RI(it) && baseIP != nil && distinct(baseIP, it.P, it.G, it.I, it.startI, it.rangeLimit)
+//@   requires 1 <= big(it.I) && big(it.I) <= big(it.rangeLimit)
+//@   requires 0 <= big(baseIP) + 1 && big(baseIP) + big(it.rangeLimit) <= 4294967295
+//@   loop 0 modifies big(baseIP), big(it.I), it.stop, it.e, it.last
+//@   loop 0 invariant iter: RI(it) && 1 <= big(it.I) && big(it.I) <= big(it.rangeLimit)
+//@   loop 0 invariant base: big(baseIP) == old(big(baseIP)) && big(it.rangeLimit) == old(big(it.rangeLimit)) && baseIP != nil
+//@                          && distinct(baseIP, it.P, it.G, it.I, it.startI, it.rangeLimit)
+//@   at call (*pkg/scan.rangeIterator).Next#0 after: use orbit_range(big(it.G), big(it.P), it.e)
+//@   loop 0 row address: [call FillBytes(baseIP, bind_b) as (a) ; send? out bind_x ; call Next(it) as (more)]
+//@                          when more && len(a) == 4 && bebytes(content(a)) == pre(big(baseIP)) + pre(big(it.I))
+//@                            && pre(big(baseIP)) + 1 <= bebytes(content(a)) && bebytes(content(a)) <= pre(big(baseIP)) + pre(big(it.rangeLimit))
+//@                            && istype(x, WrapIP) && astype(x, WrapIP) == a -> continue
+//@   loop 0 row last:    [call FillBytes(baseIP, bind_b) as (a) ; send? out bind_x ; call Next(it) as (more) ; close out]
+//@                          when !more && len(a) == 4 && bebytes(content(a)) == pre(big(baseIP)) + pre(big(it.I))
+//@                            && pre(big(baseIP)) + 1 <= bebytes(content(a)) && bebytes(content(a)) <= pre(big(baseIP)) + pre(big(it.rangeLimit))
+//@                            && istype(x, WrapIP) && astype(x, WrapIP) == a -> exit
+
+// port generator: for each range in order, the value sent is StartPort + (I - 1) (exact in uint16 because
+// validatePorts gives StartPort <= EndPort, so 1 <= I <= n <= 65536 and the iterator cannot fail to be built)
+//@ func validatePorts
+//@   props C01 C18
+//@   modifies nothing
+//@   ensures ret == nil ==> len(ports) > 0
+//@   loop 0 invariant seen: 0 <= rangeindex + 1 && (forall k int :: 0 <= k && k <= rangeindex ==> ports[k].StartPort <= ports[k].EndPort)
+//@   ensures ordered: ret == nil ==> (forall k int :: 0 <= k && k < len(ports) ==> ports[k].StartPort <= ports[k].EndPort)
+//@ func (*portGenerator).Ports
+//@   props C01
+//@   requires r != nil
+//@   observe validatePorts
+//@   entry row invalid: [call validatePorts(r.Ports) as (e)] when e != nil && ret0 == nil && ret1 == e -> exit
+//@   entry row start:   [call validatePorts(r.Ports) as (e) ; go (*portGenerator).Ports$1{out: bind_o, r: bind_r2, ctx: bind_c}] when e == nil && ret1 == nil && ret0 == o && r2 == r && c == ctx -> exit
+//@ func (*portGenerator).Ports$1
+//@   props C01 C12
+//@   observe newRangeIterator, (*math/big.Int).Int64, Next
+//@   requires r != nil && (forall k int :: 0 <= k && k < len(r.Ports) ==> r.Ports[k].StartPort <= r.Ports[k].EndPort)
+//@   loop 0 modifies nothing
+//@   at call newRangeIterator#0 before: assert 0 <= rangeindex + 1 && rangeindex + 1 < len(r.Ports) && r.Ports[rangeindex + 1].StartPort <= r.Ports[rangeindex + 1].EndPort
+//@   loop 0 row done:   [close out] when rangeindex + 1 >= len(r.Ports) -> exit
+//@   loop 0 row enter:  [call newRangeIterator(bind_n) as (nit, e)] when rangeindex + 1 < len(r.Ports) && n == r.Ports[rangeindex + 1].EndPort - r.Ports[rangeindex + 1].StartPort + 1 && e == nil -> loop 1
+//@   loop 1 modifies big(it.I), it.stop, it.e, it.last
+//@   loop 1 invariant iter: it != nil && RI(it) && 1 <= big(it.I) && big(it.I) <= big(it.rangeLimit)
+//@   loop 1 invariant base: basePort == portRange.StartPort - 1 && big(it.rangeLimit) == portRange.EndPort - portRange.StartPort + 1
+//@                          && 0 <= rangeindex + 1 && rangeindex + 1 < len(r.Ports) && portRange == r.Ports[rangeindex + 1]
+//@   at call (*pkg/scan.rangeIterator).Next#0 after: use orbit_range(big(it.G), big(it.P), it.e)
+//@   loop 1 row port:   [call Int64(_) as (v) ; send? out bind_x ; call Next(it) as (more)]
+//@                         when more && v == pre(big(it.I)) && istype(x, WrapPort) && astype(x, WrapPort) == portRange.StartPort - 1 + v
+//@                           && portRange.StartPort <= astype(x, WrapPort) && astype(x, WrapPort) <= portRange.EndPort -> continue
+//@   loop 1 row last:   [call Int64(_) as (v) ; send? out bind_x ; call Next(it) as (more)]
+//@                         when !more && v == pre(big(it.I)) && istype(x, WrapPort) && astype(x, WrapPort) == portRange.StartPort - 1 + v
+//@                           && portRange.StartPort <= astype(x, WrapPort) && astype(x, WrapPort) <= portRange.EndPort -> loop 0
